@@ -1,19 +1,23 @@
 /-
 C18 — the parameter file with the real setters of `rMin` / `rMax` (which move `rp`) and an `rp` given in the file
-(finding F25; Model/Checkpoint.lean §4b: `setAttr`, `sweepA`, `getConstantsA`, `getConstantsRp`).
+(findings F25, F29; Model/Checkpoint.lean §4b: `setAttr`, `assignB`, `sweepB`, `getConstantsB`, `getConstantsRp`).
 
 The earlier theorems on the parameter file (Props/C18.lean §5, Lemmas/ConstantsOrder.lean) are about `getConstants`, a parser
 whose assignments have no side effect.  The real class moves `rp` whenever `rMin` or `rMax` is assigned.  Here:
 
-  * `getConstantsA_simulates`   the parser with the real setters and the side-effect free one run the same sweeps and agree on
-                                every constant except `rp` (expressions are local and do not read `rp`);
-  * `constants_rp_explicit`     with `rp` in the file, `getConstantsRp` returns exactly what the side-effect free parser
-                                returns — so all theorems of §5 (order independence, print → parse) hold for it, `rp` included;
+  * `constants_rp_explicit`     with `rp` in the file, `getConstantsRp` (the parser as it is now) IS the side-effect free parser
+                                followed by the defaults — no hypothesis on the expressions (they may read `rp`): all theorems of
+                                §5 (order independence, print → parse) hold for it, `rp` included;
+  * `getConstantsA_simulates`   without `rp` in the file: the parser with the real setters and the side-effect free one run the
+                                same sweeps and agree on every constant except `rp` (expressions local, not reading `rp`);
   * `constants_rp_derived`      without `rp` in the file, `rp` is `mid rMin rMax` when both ends are set and unset otherwise,
                                 in every order of the keys;
   * `constants_rp_order_independent`, `constants_print_parse_roundtrip_rp`  the two user-level statements;
-  * `old_parser_rp_depends_on_order`  the parser without the final assignment (the code before the fix) returns different
-                                `rp` for two orders of one file: the defect, as a theorem about the model.
+  * `old_parser_rp_depends_on_order`  the parser without the final assignment (the code before F25) returns different
+                                `rp` for two orders of one file; `f25_parser_expr_depends_on_order`: the parser between F25 and
+                                F29 gives an expression that reads `rp` two values for two orders.  The defects, as theorems.
+Not proved: order independence of expressions that read a DERIVED `rp` (no `rp` in the file): the code defers them until both
+ends are known (`eval_expr` returns `None` while `rp` is unset); exercised by the correspondence only.
 -/
 import PygyroVerif.Model.Checkpoint
 import PygyroVerif.Lemmas.Reductions
@@ -174,57 +178,116 @@ theorem applyDefaults_keeps : ∀ (dflt : List (String × V)) (e : String → Op
     · simp only [hn]
       exact applyDefaults_keeps ds e k w h
 
-/-- an expression that could be evaluated keeps its value when the defaults are filled in -/
-theorem evalP_applyDefaults (pv : PVal V) (hloc : pv.Local) : ∀ (dflt : List (String × V)) (e : String → Option V) (w : V),
-    evalP e pv = some w → evalP (applyDefaults setEnv dflt e) pv = some w
-  | [], _, _, h => h
-  | (k', v) :: ds, e, w, h => by
+/-- the defaults do not assign a name they do not list -/
+theorem applyDefaults_other : ∀ (dflt : List (String × V)) (e : String → Option V) (k : String), k ∉ dflt.map (·.1) →
+    applyDefaults setEnv dflt e k = e k
+  | [], _, _, _ => rfl
+  | (k', v) :: ds, e, k, hno => by
+    simp only [List.map_cons, List.mem_cons, not_or] at hno
     simp only [applyDefaults, List.foldl_cons]
     by_cases hn : (e k').isNone = true
     · simp only [hn, if_true]
-      exact evalP_applyDefaults pv hloc ds _ w (evalP_setEnv e pv hloc k' v w (by simpa using hn) h)
+      have := applyDefaults_other ds (setEnv e k' v) k hno.2
+      simp only [applyDefaults] at this
+      rw [this]; unfold setEnv; rw [if_neg hno.1]
     · simp only [hn]
-      exact evalP_applyDefaults pv hloc ds e w h
+      exact applyDefaults_other ds e k hno.2
 
-/-- **an `rp` given in the file is a constant like any other**: the parser with the real setters, the defaults and the final
-    assignment succeeds exactly when the side-effect free parser does, and returns the table of that parser with the defaults
-    filled in — `rp` included. -/
+/-- with `rp` in the file, `assign` is an assignment without side effect -/
+theorem assignB_given (mid : V → V → V) (env : String → Option V) (k : String) (v : V) :
+    assignB mid true env k v = setEnv env k v := by
+  funext k'
+  unfold assignB
+  by_cases h1 : k = "rMin"
+  · subst h1
+    simp only [Bool.true_and, beq_self_eq_true, Bool.true_or, if_true]
+    by_cases hk : k' = "rp"
+    · subst hk; simp [setEnv]
+    · rw [if_neg hk]
+      unfold setAttr
+      cases env "rMax" <;> simp [setEnv, hk]
+  · by_cases h2 : k = "rMax"
+    · subst h2
+      simp only [Bool.true_and, beq_self_eq_true, Bool.or_true, if_true]
+      by_cases hk : k' = "rp"
+      · subst hk; simp [setEnv]
+      · rw [if_neg hk]
+        unfold setAttr
+        cases env "rMin" <;> simp [setEnv, hk]
+    · have e1 : (k == "rMin") = false := by simpa using h1
+      have e2 : (k == "rMax") = false := by simpa using h2
+      simp only [e1, e2, Bool.or_false, Bool.and_false, Bool.false_eq_true, if_false]
+      unfold setAttr
+      rw [if_neg h1, if_neg h2]
+
+theorem assignB_not_given (mid : V → V → V) (env : String → Option V) (k : String) (v : V) :
+    assignB mid false env k v = setAttr mid env k v := by
+  simp [assignB]
+
+theorem sweepB_given (mid : V → V → V) : ∀ (items : List (String × PVal V)) (env : String → Option V)
+    (um : List (String × PVal V)), sweepB mid true items env um = sweep items env um
+  | [], _, _ => rfl
+  | (k, pv) :: rest, env, um => by
+    simp only [sweepB, sweep]
+    cases evalP env pv with
+    | some v => simp only [assignB_given]; exact sweepB_given mid rest _ um
+    | none => exact sweepB_given mid rest env _
+
+theorem sweepB_not_given (mid : V → V → V) : ∀ (items : List (String × PVal V)) (env : String → Option V)
+    (um : List (String × PVal V)), sweepB mid false items env um = sweepA mid items env um
+  | [], _, _ => rfl
+  | (k, pv) :: rest, env, um => by
+    simp only [sweepB, sweepA]
+    cases evalP env pv with
+    | some v => simp only [assignB_not_given]; exact sweepB_not_given mid rest _ um
+    | none => exact sweepB_not_given mid rest env _
+
+theorem getConstantsB_given (mid : V → V → V) : ∀ (fuel : Nat) (data : List (String × PVal V)) (env : String → Option V),
+    getConstantsB mid true fuel data env = getConstants fuel data env
+  | fuel, [], env => by cases fuel <;> rfl
+  | 0, _ :: _, _ => rfl
+  | fuel + 1, d :: ds, env => by
+    simp only [getConstantsB, getConstants, sweepB_given]
+    split
+    · exact getConstantsB_given mid fuel _ _
+    · rfl
+
+theorem getConstantsB_not_given (mid : V → V → V) : ∀ (fuel : Nat) (data : List (String × PVal V)) (env : String → Option V),
+    getConstantsB mid false fuel data env = getConstantsA mid fuel data env
+  | fuel, [], env => by cases fuel <;> rfl
+  | 0, _ :: _, _ => rfl
+  | fuel + 1, d :: ds, env => by
+    simp only [getConstantsB, getConstantsA, sweepB_not_given]
+    split
+    · exact getConstantsB_not_given mid fuel _ _
+    · rfl
+
+/-- **an `rp` given in the file is a constant like any other**: the parser as it is now — real setters, `assign`, the defaults,
+    the final assignment — returns exactly what the side-effect free parser followed by side-effect free defaults returns, `rp`
+    included, and fails exactly when that parser fails.  No hypothesis on the expressions: they may read `rp`. -/
 theorem constants_rp_explicit (mid : V → V → V) (dflt : List (String × V)) (hd : "rp" ∉ dflt.map (·.1))
-    (D : List (String × PVal V)) (hnd : (D.map (·.1)).Nodup)
-    (hE : ∀ kp ∈ D, EntryRp kp) (pv : PVal V) (hrp : ("rp", pv) ∈ D) (fuel : Nat) :
-    (getConstantsRp mid dflt fuel D = none ↔ getConstants fuel D (fun _ => none) = none) ∧
-    ∀ rA r, getConstantsRp mid dflt fuel D = some rA → getConstants fuel D (fun _ => none) = some r →
-      rA = applyDefaults setEnv dflt r := by
-  have hsim := getConstantsA_simulates mid fuel D (fun _ => none) (fun _ => none) hE (fun _ _ => rfl)
-  have hl := lookup_of_mem_nodup D "rp" pv hnd hrp
-  constructor
-  · unfold getConstantsRp
-    cases hA : getConstantsA mid fuel D (fun _ => none) with
-    | none => simpa using hsim.1.1 hA
-    | some envA =>
-      simp only [hl]
-      constructor
-      · intro h; simp at h
-      · intro h; exact absurd (hsim.1.2 h) (by rw [hA]; simp)
-  · intro rA r h1 h2
-    unfold getConstantsRp at h1
-    cases hA : getConstantsA mid fuel D (fun _ => none) with
-    | none => rw [hA] at h1; simp at h1
-    | some envA =>
-      rw [hA] at h1
-      simp only [hl, Option.some.injEq] at h1
-      have hag := applyDefaults_agree mid dflt envA r hd (hsim.2 envA r hA h2)
-      have hsol := getConstants_Solution D hnd (fun kp hk => (hE kp hk).1) fuel r h2
-      funext k
-      rw [← h1]
-      by_cases hk : k = "rp"
-      · subst hk
-        simp only [if_true]
-        rw [evalP_agree _ _ pv (hE _ hrp).1 (hE _ hrp).2 hag]
-        obtain ⟨w, hw⟩ := Option.isSome_iff_exists.1 (hsol _ hrp).2
-        have h3 : evalP r pv = some w := by rw [(hsol _ hrp).1]; exact hw
-        rw [evalP_applyDefaults pv (hE _ hrp).1 dflt r w h3, applyDefaults_keeps dflt r "rp" w hw]
-      · simp only [if_neg hk]; exact hag k hk
+    (D : List (String × PVal V)) (hrp : (D.lookup "rp").isSome = true) (fuel : Nat) :
+    getConstantsRp mid dflt fuel D = (getConstants fuel D (fun _ => none)).map (applyDefaults setEnv dflt) := by
+  unfold getConstantsRp
+  simp only [hrp, getConstantsB_given, if_true]
+  cases h : getConstants fuel D (fun _ => none) with
+  | none => rfl
+  | some env =>
+    simp only [Option.map_some, Option.some.injEq]
+    funext k
+    by_cases hk : k = "rp"
+    · subst hk
+      simp only [if_true]
+      exact (applyDefaults_other dflt env "rp" hd).symm
+    · simp only [if_neg hk]
+      exact applyDefaults_agree mid dflt env env hd (fun _ _ => rfl) k hk
+
+/-- without `rp` in the file the parser is the one with the plain setters -/
+theorem getConstantsRp_not_given (mid : V → V → V) (dflt : List (String × V)) (D : List (String × PVal V))
+    (hno : D.lookup "rp" = none) (fuel : Nat) : getConstantsRp mid dflt fuel D = getConstantsOld mid dflt fuel D := by
+  unfold getConstantsRp getConstantsOld
+  simp only [hno, Option.isSome_none, getConstantsB_not_given, Bool.false_eq_true, if_false]
+  cases getConstantsA mid fuel D (fun _ => none) <;> rfl
 
 /-- invariant of the setters: `rp` is the middle of the domain as soon as both ends are set, and unset before -/
 def MidInv (mid : V → V → V) (env : String → Option V) : Prop :=
@@ -322,45 +385,47 @@ theorem applyDefaults_MidInv (mid : V → V → V) : ∀ (dflt : List (String ×
 theorem constants_rp_derived (mid : V → V → V) (dflt : List (String × V)) (hd : "rp" ∉ dflt.map (·.1))
     (D : List (String × PVal V)) (hno : "rp" ∉ D.map (·.1)) (fuel : Nat)
     (res : String → Option V) (h : getConstantsRp mid dflt fuel D = some res) : MidInv mid res := by
-  unfold getConstantsRp at h
+  rw [getConstantsRp_not_given mid dflt D (lookup_none_of_not_mem D "rp" hno) fuel] at h
+  unfold getConstantsOld at h
   cases hA : getConstantsA mid fuel D (fun _ => none) with
   | none => rw [hA] at h; simp at h
   | some envA =>
     rw [hA] at h
-    simp only [lookup_none_of_not_mem D "rp" hno, Option.some.injEq] at h
+    simp only [Option.map_some, Option.some.injEq] at h
     subst h
     refine applyDefaults_MidInv mid dflt envA hd ?_
     refine getConstantsA_MidInv mid fuel D (fun _ => none) envA ?_ (by simp [MidInv]) hA
     intro kp hm hk
     exact hno (List.mem_map.2 ⟨kp, hm, hk⟩)
 
-/-- **the constants, `rp` included, do not depend on the order of the keys** (with `rp` in the file): two successful runs on
-    two orderings of one file return the same table on all keys of the file. -/
+/-- **the constants, `rp` included, do not depend on the order of the keys** (with `rp` in the file; expressions local, they may
+    read `rp`): two successful runs on two orderings of one file return the same table on all keys of the file. -/
 theorem constants_rp_order_independent (mid : V → V → V) (dflt : List (String × V)) (hd : "rp" ∉ dflt.map (·.1))
     (D1 D2 : List (String × PVal V)) (hperm : D1 ~ D2)
-    (hnd : (D1.map (·.1)).Nodup) (hE : ∀ kp ∈ D1, EntryRp kp) (pv : PVal V) (hrp : ("rp", pv) ∈ D1)
+    (hnd : (D1.map (·.1)).Nodup) (hloc : ∀ kp ∈ D1, kp.2.Local) (pv : PVal V) (hrp : ("rp", pv) ∈ D1)
     (fuel : Nat) (r1 r2 : String → Option V)
     (h1 : getConstantsRp mid dflt fuel D1 = some r1) (h2 : getConstantsRp mid dflt fuel D2 = some r2) :
     ∀ k ∈ D1.map (·.1), r1 k = r2 k := by
   have hnd2 : (D2.map (·.1)).Nodup := (hperm.map _).nodup_iff.1 hnd
-  have hE2 : ∀ kp ∈ D2, EntryRp kp := fun kp hm => hE kp (hperm.mem_iff.2 hm)
-  have c1 := constants_rp_explicit mid dflt hd D1 hnd hE pv hrp fuel
-  have c2 := constants_rp_explicit mid dflt hd D2 hnd2 hE2 pv (hperm.mem_iff.1 hrp) fuel
+  have l1 : (D1.lookup "rp").isSome = true := by rw [lookup_of_mem_nodup D1 "rp" pv hnd hrp]; rfl
+  have l2 : (D2.lookup "rp").isSome = true := by rw [lookup_of_mem_nodup D2 "rp" pv hnd2 (hperm.mem_iff.1 hrp)]; rfl
+  rw [constants_rp_explicit mid dflt hd D1 l1 fuel] at h1
+  rw [constants_rp_explicit mid dflt hd D2 l2 fuel] at h2
   cases g1 : getConstants fuel D1 (fun _ => none) with
-  | none => exact absurd (c1.1.2 g1) (by rw [h1]; simp)
+  | none => rw [g1] at h1; simp at h1
   | some e1 =>
     cases g2 : getConstants fuel D2 (fun _ => none) with
-    | none => exact absurd (c2.1.2 g2) (by rw [h2]; simp)
+    | none => rw [g2] at h2; simp at h2
     | some e2 =>
-      have hr1 := c1.2 r1 e1 h1 g1
-      have hr2 := c2.2 r2 e2 h2 g2
-      have hsol := getConstants_Solution D1 hnd (fun kp hk => (hE kp hk).1) fuel e1 g1
-      have := PygyroVerif.C18.constants_order_independent_partial D1 D2 hperm (fun kp hk => (hE kp hk).1) e1 hsol fuel fuel e1 e2 g1 g2
+      rw [g1] at h1; rw [g2] at h2
+      simp only [Option.map_some, Option.some.injEq] at h1 h2
+      have hsol := getConstants_Solution D1 hnd hloc fuel e1 g1
+      have := PygyroVerif.C18.constants_order_independent_partial D1 D2 hperm hloc e1 hsol fuel fuel e1 e2 g1 g2
       intro k hk
       obtain ⟨kp, hkp, rfl⟩ := List.mem_map.1 hk
       obtain ⟨w, hw⟩ := Option.isSome_iff_exists.1 (hsol kp hkp).2
       have hw2 : e2 kp.1 = some w := by rw [← (this kp.1 hk).2.2]; exact hw
-      rw [hr1, hr2, applyDefaults_keeps dflt e1 kp.1 w hw, applyDefaults_keeps dflt e2 kp.1 w hw2]
+      rw [← h1, ← h2, applyDefaults_keeps dflt e1 kp.1 w hw, applyDefaults_keeps dflt e2 kp.1 w hw2]
 
 /-- **print → parse with the real setters**: a file of literals with distinct names (what `Constants.__str__` prints: it
     always contains `rp`) is read back, in any order of the entries, to a table that gives every name its literal —
@@ -370,24 +435,15 @@ theorem constants_print_parse_roundtrip_rp (mid : V → V → V) (dflt : List (S
     (hl : ∀ kp ∈ D, ∃ v, kp.2 = PVal.lit v) (hnd : (D.map (·.1)).Nodup) (vrp : V) (hrp : ("rp", PVal.lit vrp) ∈ D) (fuel : Nat) :
     ∃ env, getConstantsRp mid dflt (fuel + 1) D = some env ∧ ∀ k v, (k, PVal.lit v) ∈ D → env k = some v := by
   obtain ⟨e, he, hv⟩ := PygyroVerif.C18.constants_print_parse_roundtrip D hl hnd fuel
-  have hE : ∀ kp ∈ D, EntryRp kp := by
-    intro kp hm
-    obtain ⟨v, hv⟩ := hl kp hm
-    rw [EntryRp, hv]
-    exact ⟨trivial, by simp [PVal.deps]⟩
-  have c := constants_rp_explicit mid dflt hd D hnd hE _ hrp (fuel + 1)
-  cases g : getConstantsRp mid dflt (fuel + 1) D with
-  | none => exact absurd (c.1.1 g) (by rw [he]; simp)
-  | some rA =>
-    refine ⟨rA, rfl, ?_⟩
-    rw [c.2 rA e g he]
-    intro k v hm
-    exact applyDefaults_keeps dflt e k v (hv k v hm)
+  have l1 : (D.lookup "rp").isSome = true := by rw [lookup_of_mem_nodup D "rp" _ hnd hrp]; rfl
+  refine ⟨applyDefaults setEnv dflt e, ?_, fun k v hm => applyDefaults_keeps dflt e k v (hv k v hm)⟩
+  rw [constants_rp_explicit mid dflt hd D l1 (fuel + 1), he]
+  rfl
 
-/-- **the parser without the final assignment (the code before the fix) depends on the order of the keys**: one file, two
+/-- **the parser without the final assignment (the code before the fix F25) depends on the order of the keys**: one file, two
     orders, two values of `rp` (`popitem` takes the last entry first: in the first order `rp` is assigned last and stays,
     in the second it is assigned first and `rMax`, `rMin` move it to the middle); and an `rp` is lost whenever one end of the
-    domain comes from the defaults.  The parser with the final assignment returns the given `rp` on the same files. -/
+    domain comes from the defaults.  The parser as it is now returns the given `rp` on the same files. -/
 theorem old_parser_rp_depends_on_order :
     (getConstantsOld (fun a b : Int => (a + b) / 2) [("rMin", 0), ("rMax", 14)] 4 [("rp", .lit 5), ("rMin", .lit 0), ("rMax", .lit 14)]).map (· "rp")
       = some (some 5) ∧
@@ -399,6 +455,20 @@ theorem old_parser_rp_depends_on_order :
       = some (some 5) ∧
     (getConstantsRp (fun a b : Int => (a + b) / 2) [("rMin", 0), ("rMax", 14)] 4 [("rp", .lit 5), ("rMax", .lit 14)]).map (· "rp")
       = some (some 5) := by decide
+
+/-- **between F25 and F29 an expression that reads `rp` depended on the order of the keys**: `deltaR = 2·rp` with `rp = 5` in the
+    file is 10 when the expression is read right after `rp` and 14 (twice the middle of the domain) when the ends are read in between; the parser
+    as it is now gives 10 in both orders. -/
+theorem f25_parser_expr_depends_on_order :
+    let dbl : PVal Int := .expr ["rp"] (fun e => 2 * (e "rp").getD 0)
+    (getConstantsF25 (fun a b : Int => (a + b) / 2) [] 4 [("rMin", .lit 0), ("rMax", .lit 14), ("deltaR", dbl), ("rp", .lit 5)]).map (· "deltaR")
+      = some (some 10) ∧
+    (getConstantsF25 (fun a b : Int => (a + b) / 2) [] 4 [("deltaR", dbl), ("rMin", .lit 0), ("rMax", .lit 14), ("rp", .lit 5)]).map (· "deltaR")
+      = some (some 14) ∧
+    (getConstantsRp (fun a b : Int => (a + b) / 2) [] 4 [("rMin", .lit 0), ("rMax", .lit 14), ("deltaR", dbl), ("rp", .lit 5)]).map (· "deltaR")
+      = some (some 10) ∧
+    (getConstantsRp (fun a b : Int => (a + b) / 2) [] 4 [("deltaR", dbl), ("rMin", .lit 0), ("rMax", .lit 14), ("rp", .lit 5)]).map (· "deltaR")
+      = some (some 10) := by decide
 
 /-- non-vacuity of `constants_rp_explicit` / `constants_rp_derived`: an expression for `rp`, ends given in both orders or by the
     defaults -/
